@@ -686,6 +686,9 @@ pub fn evaluate(property: &str, v: &View) -> Vec<Violation> {
         "C01" => c01(v),
         "C02" => c02(v),
         "C03" => c03(v),
+        "C06" => crate::oracle2::c06(v),
+        "C08" => crate::oracle2::c08(v),
+        "C12" => crate::oracle2::c12(v),
         _ => vec![],
     }
 }
@@ -765,6 +768,15 @@ pub fn nontrivial(property: &str, v: &View, s: &RunStats) -> bool {
         }
         "C03" => {
             p("stream_data_blocked_sent") + p("data_blocked_sent") + p("streams_blocked_sent") + p("reset_stream_sent") > 0
+        }
+        "C06" => {
+            // a forged / mutated / replayed datagram actually reached an endpoint
+            v.out.net.delivered.iter().any(|d| d.4 != crate::net::Label::Genuine) && p("stream_eof") > 0
+        }
+        "C08" => s.faults_fired > 0 && (p("ack_with_gaps_sent") > 0 || p("packet_lost") > 0),
+        "C12" => {
+            p("reset_stream_sent") + p("stop_sending_sent") + p("connection_close_sent") > 0
+                && (s.faults_fired > 0 || p("packet_lost") > 0)
         }
         _ => s.faults_fired > 0 && s.progress,
     }
